@@ -45,6 +45,21 @@ CheckSimplify(e) ==
   ELSE IF ~SimplifyOK(e.line, e.kept, e.tn, e.td) THEN "simplify-contract"
   ELSE "ok"
 
+\* Polygon: every ring is simplified on its own; rings that collapse disappear (the shell collapsing empties the
+\* polygon); the result is valid or an error.  The kept rings must match original rings in order.
+RECURSIVE RingsMatch(_,_,_,_,_,_)
+RingsMatch(orig, kept, i, j, tn, td) ==
+  IF j > Len(kept) THEN TRUE
+  ELSE IF i > Len(orig) THEN FALSE
+  ELSE (SimplifyOK(orig[i], kept[j], tn, td) /\ RingsMatch(orig, kept, i+1, j+1, tn, td)) \/ (i > 1 /\ RingsMatch(orig, kept, i+1, j, tn, td))
+CheckSimplifyPoly(e) ==
+  IF e.err = "skip-invalid-input" THEN "skip:invalid-input"
+  ELSE IF e.err # "" THEN "ok"
+  ELSE IF ~e.valid THEN "simplify-result-invalid"
+  ELSE IF Len(e.keptrings) = 0 THEN "ok"
+  ELSE IF ~RingsMatch(e.rings, e.keptrings, 1, 1, e.tn, e.td) THEN "simplify-polygon-contract"
+  ELSE "ok"
+
 CheckDensify(e) ==
   IF ~DensifyOK(e.line, e.dense, e.dn, e.dd) THEN "densify-contract"
   ELSE IF e.ctsame # TRUE THEN "densify-coordinate-type" ELSE "ok"
@@ -74,6 +89,7 @@ Check(e) ==
   ELSE CASE e.kind = "interp" -> CheckInterp(e)
          [] e.kind = "even" -> CheckEven(e)
          [] e.kind = "simplify" -> CheckSimplify(e)
+         [] e.kind = "simplifypoly" -> CheckSimplifyPoly(e)
          [] e.kind = "densify" -> CheckDensify(e)
          [] e.kind = "snap" -> CheckSnap(e)
          [] e.kind = "snapdec" -> CheckSnapDec(e)
